@@ -114,4 +114,14 @@ def generate(repo):
                coq_list(coq_string(n) for n, d in params if d is False))
     out.append('Definition get_basis_count_params : list string := %s.' %
                coq_list(coq_string(n) for n, d in params if d == 0 and d is not False))
+    # get_roles(): the literal dict returned
+    fr = find_func(tree, 'get_roles', path)
+    rets = [st for st in fr.body if isinstance(st, ast.Return)]
+    if len(rets) != 1:
+        raise TranslateError(path + ': get_roles has no unique return')
+    roles = literal(rets[0].value, path)
+    if not isinstance(roles, dict):
+        raise TranslateError(path + ': get_roles does not return a dict literal')
+    out.append('Definition roles : list (string * string) := %s.' %
+               coq_list('(%s, %s)' % (coq_string(k), coq_string(v)) for k, v in roles.items()))
     return '\n'.join(out) + '\n'
